@@ -5197,7 +5197,13 @@ XPath::NodeTester::testNode(
             const XalanNode&        context,
             XalanNode::NodeType     nodeType) const
 {
-    if (nodeType != XalanNode::TEXT_NODE ||
+    // A document type node, which a wrapped Xerces DOM document has as a
+    // child of the document, is not a node of the XPath data model...
+    if (nodeType == XalanNode::DOCUMENT_TYPE_NODE)
+    {
+        return eMatchScoreNone;
+    }
+    else if (nodeType != XalanNode::TEXT_NODE ||
         shouldStripSourceNode(static_cast<const XalanText&>(context)) == false)
     {
         return eMatchScoreNodeTest;
